@@ -13,7 +13,7 @@ from mc.schema import KINDS
 ID = 'C17'
 ENGINE = 'E2 explicit-state BFS over context-manager histories + E1 product of restricted aspects'
 RULE = ("(a) breadth-first search over histories of enter / leave / leave-by-exception / decorated call / decorated "
-        "call that raises / build conforming / build breaching / write events; the flag is compared with a stack model "
+        "call that raises / decorated call calling a decorated call / 'with' inside a decorated call / build conforming / build breaching / write events; the flag is compared with a stack model "
         "after every event and breaching builds must raise exactly when the model says the mode is on; (b) one "
         "restricted aspect violated at a time (non-conforming name for each of the 21 object kinds, set identifier, "
         "header id, validated IDENT attributes; signed-integer channel; channel in 0 / 2 frames; non-uniform index; "
@@ -28,7 +28,7 @@ ASSUMPTIONS = ["strict reader mc/rp66.py", "'set identifier' = storage-set ident
 MIN_DISTINCT_OUTCOMES = 2
 NAME_RE = re.compile(r"[A-Z0-9_-]+")
 
-EVENTS = ['E', 'X', 'XE', 'D', 'DE', 'BC', 'BB', 'W']
+EVENTS = ['E', 'X', 'XE', 'D', 'DE', 'DD', 'DW', 'BC', 'BB', 'W']     # DD: decorated calls decorated; DW: 'with' inside decorated
 
 
 def depth(tier):
@@ -152,6 +152,25 @@ def check_history(h):
                     pass
                 if seen.get('inside') is not True:
                     viol.append(("C17:decorator-not-on", f"mode was {seen.get('inside')} inside a decorated call | history={h}"))
+            elif e in ('DD', 'DW'):
+                seen = {}
+
+                @high_compatibility_mode_decorator
+                def inner():
+                    seen['inner'] = global_config.high_compat_mode
+
+                @high_compatibility_mode_decorator
+                def outer():
+                    seen['before'] = global_config.high_compat_mode
+                    if e == 'DD':
+                        inner()                     # a decorated function called from a decorated function
+                    else:
+                        with high_compatibility_mode():
+                            seen['inner'] = global_config.high_compat_mode
+                    seen['after'] = global_config.high_compat_mode
+                outer()
+                if not (seen.get('before') is True and seen.get('inner') is True and seen.get('after') is True):
+                    viol.append(("C17:decorator-not-on:nested", f"mode inside nested decorated scopes: {seen} | history={h}"))
             elif e == 'BC':
                 b = S.build(conforming_spec())
                 if b.failed_at is not None:
